@@ -109,4 +109,54 @@ def handleStruct (args : List String) : String :=
       s!"C {" ".intercalate cs}#F {" ".intercalate fs}"
   | _ => "bad-args"
 
+/-- `rs sub cb.cn fb.fn ptr farray dS dP retC hasRetF retF cptr rdecl` (retC `-`|c.n.p, retF `-`|c.n, rdecl `-`|c.n.v.s):
+    the model's C return type, Fortran result declaration (`-` = subroutine) and resultOK -/
+def handleResult (args : List String) : String :=
+  match args with
+  | [sub, cbs, fbs, ptr, fa, dS, dP, retC, hasRetF, retF, cptr, rdecl] =>
+    match nats cbs ".", nats fbs "." with
+    | [cb, cn], [fb, fn] =>
+      match decCBase cb cn, decFBase fb fn with
+      | some c, some f =>
+        let rc : Option (Option ParamC) := if retC == "-" then some none else
+          match nats retC "." with
+          | [a, b, p] => (decC (a, b, p)).map some
+          | _ => none
+        let rf : Option (Option FBase) := if retF == "-" then some none else
+          match nats retF "." with
+          | [a, b] => (decFBase a b).map some
+          | _ => none
+        let rd : Option (Option DummyF) := if rdecl == "-" then some none else
+          match nats rdecl "." with
+          | [a, b, v, sh] => (decF (a, b, v, sh)).map some
+          | _ => none
+        match rc, rf, rd with
+        | some rc, some rf, some rd =>
+          let r : ResultSpec := ⟨sub == "1", c, f, ptr.toNat!, fa == "1", dS == "1", dP == "1", rc, hasRetF == "1", rf,
+                                 cptr == "1", rd⟩
+          let fs := match resultF r with | none => "-" | some d => encD d
+          s!"C {encP (resultC r)}#F {fs}#ok={if resultOK r then 1 else 0}"
+        | _, _, _ => "bad-class"
+      | _, _ => "bad-class"
+    | _, _ => "bad-args"
+  | _ => "bad-args"
+
+/-- `cb <A>;<A>;...` (A as in `fn`): the model's callback parameter classes (C function-pointer type / abstract interface) -/
+def handleCallback (args : List String) : String :=
+  match args with
+  | [ps] =>
+    match (if ps == "~" then some [] else allSome ((ps.splitOn ";").map (fun t => decArg (nats t ",")))) with
+    | none => "bad-arg"
+    | some as => s!"P {" ".intercalate ((cbProto as).map encP)}#F {" ".intercalate ((cbIface as).map encD)}"
+  | [ps, res] =>
+    -- res = cb.cn.ptr.fb.fn : result of a callback that is a function
+    match (if ps == "~" then some [] else allSome ((ps.splitOn ";").map (fun t => decArg (nats t ",")))), nats res "." with
+    | some as, [cb, cn, ptr, fb, fn] =>
+      match decCBase cb cn, decFBase fb fn with
+      | some c, some f =>
+        s!"P {" ".intercalate ((cbProto as).map encP)}#F {" ".intercalate ((cbIface as).map encD)}#R {encP ⟨c, ptr⟩} {encD (cbResF c ptr f)}"
+      | _, _ => "bad-class"
+    | _, _ => "bad-arg"
+  | _ => "bad-args"
+
 end Driver
